@@ -625,6 +625,16 @@ fn add_path_data<W: Write>(
                 }
             }
 
+            // A duplicated point at the end of a segment is not read back as
+            // a segment start so the last point and points directly followed
+            // by another segment start require an explicit type.
+            if control_points
+                .get(i + 1)
+                .map_or(true, |next| next.path_type.is_some())
+            {
+                needs_explicit_segment = true;
+            }
+
             if needs_explicit_segment {
                 match path_type.kind {
                     SplineType::BSpline => {
@@ -641,7 +651,8 @@ fn add_path_data<W: Write>(
 
                 // Beatmaps such as /b/1027526 have no control points so the
                 // path type needs to be followed by `,` instead of `|`.
-                writer.write_all(slice::from_ref(&separator(i)))?;
+                let type_separator = if i == 0 { separator(i) } else { b'|' };
+                writer.write_all(slice::from_ref(&type_separator))?;
 
                 last_type = Some(path_type);
             } else {
